@@ -327,8 +327,8 @@ func (r *Reader) decode2D() {
 		case S_Horiz:
 			// first run (of current color)
 			runLength := r.decodeFullRun(currentCol == white)
-			runLength = min(runLength, r.Columns-a0)
 			a0 = max(a0, 0)
+			runLength = min(runLength, r.Columns-a0)
 			r.fillRowBits(a0, a0+runLength, currentCol == 1)
 			a0 += runLength
 
